@@ -141,6 +141,23 @@ claim("C09", "E2", "hypothesis generated graph inputs: worker-copy isomorphism, 
       "and every test of the complete graph is expanded by some worker; (4) parsing twice gives identical exports.",
       _E2NOTE + " Clone sources (never runnable bookkeeping nodes) are left out of the comparisons.")
 
+claim("C15", "E1", "hypothesis generated update requests through Manu.run vs reference path/descendants from a separately exported graph",
+      "Generated (from_state, to_state) pairs along each vm's setup chain (incl. from==to, install corner cases and "
+      "non-existent names), vm selections, remove sets and 1-3 workers are run through the real command line parser, "
+      "Manu.run and the update tool on the simulator; the executed tests must be exactly the path between the states "
+      "(once, in order), the removals per worker exactly the selected vm's states of the descendants of the target "
+      "state inside the remove set, nothing of unselected vms, and unknown states must be rejected without acting.",
+      _E1NOTE + " The reference graph of the remove set is parsed by the real parser and exported (E2); path and "
+      "descendants are computed by the check. from_state is always an ancestor of to_state.")
+claim("C20", "E1", "hypothesis generated setup chains through Manu.run vs per-step execution multiset, order and return code",
+      "Generated chains of 1-4 distinct manual steps x vm selections/variants x worker sets (incl. workers excluding a "
+      "selected variant) x a failing or raising step at any position x extra parameters run through Manu.run on the "
+      "simulator: every step executes exactly once per selected vm variant and compatible worker (per-vm tools) or once "
+      "per compatible worker for all vms (multi-vm tools), with the step's and the user's parameters, never for "
+      "unselected vms, in chain order; the return code is 1 exactly when a step failed or raised, later steps still run. "
+      "One defect found and fixed (create/clean/collect dropped the return code).",
+      _E1NOTE + " Chains do not repeat a step and exclude start/stop/run/list/update; a raising step only with one worker.")
+
 _pending = "check not built yet in this round (planned in DESIGN.md section 4); not claimed until it runs"
 for _i in range(1, 21):
     _p = f"C{_i:02d}"
